@@ -277,14 +277,14 @@ theorem marker_never_delivered (ev : Val â†’ Val) (c : Cfgable) (cfg : Store) (Ï
     registration: a registration that succeeds has every REQUIRED default configurable. -/
 theorem required_sig_validation (st st' : State) (r : State.RegReq) (h : st.register r = .ok st') :
     r.cfgable.requiredKwargsValid = true := by
-  unfold State.register at h
+  have hc := (State.register_ok h).1
   by_cases hv : r.cfgable.requiredKwargsValid = true
   Â· exact hv
   Â· exfalso
     have hv' : (!r.cfgable.requiredKwargsValid) = true := by simpa using hv
-    simp only [hv', if_true] at h
-    repeat (split at h; first | cases h | skip)
-    all_goals (repeat (first | (split at h) | cases h))
+    unfold State.regCheck at hc
+    simp only [hv', if_true] at hc
+    repeat (first | (split at hc) | cases hc)
 
 /-! Non-vacuity: a call with a positional marker, one bound and one unbound. -/
 def demoC : Cfgable := { selector := ["f"], sig := { pos := [("x", none), ("y", some .required)] } }
